@@ -60,7 +60,7 @@ Proof. intros a H. split; [apply arc_points_sorted, H | intros p; apply arc_poin
    K18_tiny_sweep_opposite_side ps = (operation is Intersection and det(right normal, left normal) <= 0): the
    two radial rays are not in proper counter-clockwise position - in practice |sweep| below the resolution of the
    1024-scaled normals, where both normals coincide (known_findings.txt class tiny_sweep_opposite_side).
-   The p_trig_* suites check det > 0 for every Intersection sector with |sweep| >= 0.1 deg.
+   The p_trig_* suites check det > 0 for every Intersection sector with 0.12 deg <= |sweep| <= 179.88 deg.
    Outside that class every accepted point of a < 180 deg sector is in front of at least one radial ray;
    inside it the statement is false, witnessed by the real case Sector (0,0) d=11, 0 deg, sweep 0 deg, point (0,5). *)
 Theorem C18_sector_in_front_of_a_ray : forall s p,
